@@ -551,7 +551,9 @@ def _canon_times(n, T):
 def instances(tier, seed):
     out = []
     quick = tier == "quick"
-    align_sets3 = [(16, 16, 16), (16, 64, 128), (128, 16, 64), (64, 128, 16)] if quick else list(itertools.product((16, 64, 128), repeat=3))
+    mixed = [(16, 64, 128), (128, 16, 64), (64, 128, 16)]
+    # quick: equal alignments plus two of the three mixed vectors (rotating with the seed); thorough: all 27 vectors
+    align_sets3 = [(16, 16, 16), mixed[seed % 3], mixed[(seed + 1) % 3]] if quick else list(itertools.product((16, 64, 128), repeat=3))
     tk = lambda tv: "_".join("%d%d" % t for t in tv)  # noqa
     ak = lambda av: "a" + "-".join(map(str, av))  # noqa
     for n in (1, 2, 3):
